@@ -101,6 +101,19 @@ pub fn std_module(log: InvLog) -> Methods {
 		Err::<u8, _>(ErrorObjectOwned::owned(1234, "custom failure", Some(json!({"k": [1, 2]}))))
 	})
 	.unwrap();
+	// result of controllable size and content class: params [kind, n]
+	m.register_method("blob", |p, log, _| {
+		log.lock().unwrap().push("blob".into());
+		let (kind, n): (u8, usize) = p.parse()?;
+		Ok::<_, ErrorObjectOwned>(blob(kind, n))
+	})
+	.unwrap();
+	m.register_async_method("blob_err", |p, log, _| async move {
+		log.lock().unwrap().push("blob_err".into());
+		let (kind, n): (u8, usize) = p.parse()?;
+		Err::<u8, _>(ErrorObjectOwned::owned(77, "e", Some(blob(kind, n))))
+	})
+	.unwrap();
 	m.register_subscription("sub", "n", "unsub", |p, pending, log, _| async move {
 		log.lock().unwrap().push("sub".into());
 		let count: u64 = p.one().unwrap_or(0);
@@ -116,6 +129,18 @@ pub fn std_module(log: InvLog) -> Methods {
 	})
 	.unwrap();
 	m.into()
+}
+
+/// n units of a content class: 0 ASCII, 1 needs JSON escaping, 2 two-byte UTF-8, 3 four-byte UTF-8, 4 control char (\u00XX escape)
+pub fn blob(kind: u8, n: usize) -> String {
+	let unit = match kind {
+		0 => "a",
+		1 => "\"",
+		2 => "é",
+		3 => "\u{1F600}",
+		_ => "\u{1}",
+	};
+	unit.repeat(n)
 }
 
 pub fn cfg_builder() -> ServerConfigBuilder {
@@ -256,6 +281,15 @@ pub fn ws_server(cfg: ServerConfig) -> WsServer {
 impl WsServer {
 	pub fn svc(&self) -> StdSvc {
 		self.builder.clone().build(self.methods.clone(), self.stop.clone())
+	}
+}
+
+/// Subscription ids that are strings of a fixed width.
+#[derive(Debug)]
+pub struct WideIds(pub usize);
+impl jsonrpsee_server::IdProvider for WideIds {
+	fn next_id(&self) -> jsonrpsee_types::SubscriptionId<'static> {
+		jsonrpsee_types::SubscriptionId::Str("s".repeat(self.0).into())
 	}
 }
 
